@@ -40,6 +40,22 @@ Theorem C07_key_stable_pickle : forall dumps H post_init prefix c fs o',
 Proof. exact key_of_copy. Qed.
 Print Assumptions C07_key_stable_pickle.
 
+(* A task type's post_init may (re)assign parameter attributes.  For the _task_post_init read from the current source the
+   key is (re)computed afterwards, so it describes the parameters as they end up — the values that ==, the stored metadata
+   and cached_tasks use — and rebuilding the task from those values gives the same key (any idempotent rewrite). *)
+Theorem C07_key_describes_final_parameters : forall (post_init : value -> option value) (keyf : value -> str) (rw : value -> value) (v : value),
+  (forall x, rw (rw x) = rw x) ->
+  let o := construct_rw post_init keyf key_mode_src rw v in
+  o_key o = keyf (o_val o) /\ o_key (construct_rw post_init keyf key_mode_src rw (o_val o)) = o_key o.
+Proof. exact (fun pi keyf rw v H => conj (key_describes_final pi keyf rw v) (key_stable_rewrite pi keyf rw v H)). Qed.
+Print Assumptions C07_key_describes_final_parameters.
+Theorem C07_key_before_post_init_refuted : exists (post_init : value -> option value) (keyf : value -> str) (rw : value -> value) (v : value),
+  (forall x, rw (rw x) = rw x) /\
+  let o := construct_rw post_init keyf KeyBeforePostInit rw v in
+  o_key (construct_rw post_init keyf KeyBeforePostInit rw (o_val o)) <> o_key o.
+Proof. exact key_before_post_init_refuted. Qed.
+Print Assumptions C07_key_before_post_init_refuted.
+
 (* The unguarded statement is false (known finding D9): a string-keyed dict can spell a serialised task. *)
 Theorem C07_unguarded_refuted : exists a b, a <> b /\ ser a = ser b.
 Proof. exact ser_unguarded_refuted. Qed.
